@@ -14,7 +14,7 @@ META = dict(
     property_id="C20", engine="tlc-idalloc",
     technique="TLC exhaustive model of the allocator + refinement; every model edge and TLC-simulated histories replayed on the real allocator; recorded histories trace-validated by TLC against the abstract allocator",
     level=("model_checking", "The allocator is a small state machine: TLC enumerates every reachable state of the implementation-shaped model for all ranges of size <= 5 (quick) / 6 (thorough), checks the four listed properties and refinement of the abstract allocator, and every edge of that graph is executed on the real code; long real histories (ranges up to ~2000/8000) are judged by TLC against the abstract allocator, so any correct scan strategy is accepted.", "7/C20"),
-    level_note="Trusted: TLC, the Go runtime, the verif snapshot hook (read-only). Domain: 0 <= min <= max, in-range arguments >= 0. Bounded: exhaustive only for small ranges; larger ranges by seeded histories.",
+    level_note="Trusted: TLC, the Go runtime, the verif snapshot hook (read-only). Domain: 0 <= min <= max, in-range arguments of either sign. Bounded: exhaustive only for small ranges; larger ranges by seeded histories.",
 )
 
 
@@ -111,7 +111,7 @@ def run(c):
     def classify(idx, t):
         evs, h = history_of(idx)
         e = evs[-1]
-        cls = "fail-not-full" if e["err"] else ("out-of-bounds" if not (h["min"] <= e["id"] <= h["max"]) else "live-id")
+        cls = "hang-not-full" if e.get("hang") else "fail-not-full" if e["err"] else ("out-of-bounds" if not (h["min"] <= e["id"] <= h["max"]) else "live-id")
         return (e["op"], cls, "history min=%d max=%d, %d ops; observed id=%s err=%s is not a step of IdAlloc" % (h["min"], h["max"], len(h["ops"]), e["id"], e["err"]),
                 dict(history=h, observed=e, how="driver idalloc replay [history] out.ndjson; validate with Trace_C20"))
 
@@ -125,6 +125,9 @@ def run(c):
         return bool(again)
     c.triage(mism, classify, confirm)
     nhist = sum(1 for e in events if '"New"' in e[:40])
+    nh = sum(1 for x in events if '"hang":true' in x)
+    if nh:
+        c.note("%d call(s) did not return within 2 s (judged by TLC like a failed allocation: a violation only where the property forbids failing)" % nh)
     c.cov["distinct_nontrivial"] = len(c._distinct) + (nhist - n_edges)
     c.cov["rule"] = ("cases = real allocator calls; distinct non-trivial = distinct (source state, operation, arguments) edges of the "
                      "exhaustive model graph replayed (%d) + distinct simulated/recorded histories (%d); a history is non-trivial when it has at least one operation" % (n_edges, nhist - n_edges))
@@ -134,7 +137,7 @@ def run(c):
     for i in (0, len(events) // 2, len(events) - 1):
         c.sample(events[i])
     c.sample(hists[n_edges // 2])
-    c.assumptions += ["domain: 0 <= min <= max and non-negative in-range arguments (negative arguments make Go's % negative; every caller passes unsigned 16-bit codes)",
+    c.assumptions += ["domain: 0 <= min <= max; in-range arguments of either sign",
                       "exhaustive for ranges of size <= %d, min <= %d; larger ranges sampled" % (6 if thorough else 5, 3 if thorough else 2)]
 
 
